@@ -62,13 +62,12 @@ func (c Nodeconfig) StringConfigRequired(name string) (string, error) {
 }
 
 // Float64Config validates and fetches the flaot-typed optional config value specified by 'name', using the 'defaultValue' if
-// no value was provided in the configuration. The default float64 (if used) is formatted following platform-and-golang
-// default precision and width (%f formatting).
+// no value was provided in the configuration.
 func (c Nodeconfig) Float64Config(name string, defaultValue float64, minValue float64, maxValue float64) (float64, error) {
 	// set the default value, if not provided
 	_, ok := c[name]
 	if !ok {
-		c[name] = fmt.Sprintf("%f", defaultValue)
+		c[name] = strconv.FormatFloat(defaultValue, 'g', -1, 64) // shortest representation that parses back to defaultValue
 	}
 
 	return c.Float64ConfigRequired(name, minValue, maxValue)
@@ -87,7 +86,7 @@ func (c Nodeconfig) Float64ConfigRequired(name string, minValue, maxValue float6
 		return 0, fmt.Errorf("expected float64 value for config [%s]", name)
 	}
 
-	if f64Value > maxValue || f64Value < minValue {
+	if !(f64Value >= minValue && f64Value <= maxValue) { // written so that NaN is rejected
 		return 0, fmt.Errorf("config value [%s] requires value between [%f] and [%f]", name, minValue, maxValue)
 	}
 	return f64Value, nil
